@@ -198,6 +198,37 @@ func (rt *ResultTypeExpr) Finalize() {
 	})
 }
 
+// validateExplicitView makes sure that the view explicitly set on the result
+// type with View(name), if any, is defined by the result type - or by its
+// element result type in the case of a collection - so that Finalize can
+// project it.
+func (rt *ResultTypeExpr) validateExplicitView() *eval.ValidationErrors {
+	verr := new(eval.ValidationErrors)
+	if rt == nil || rt.UserTypeExpr == nil || rt.AttributeExpr == nil {
+		return verr
+	}
+	view, ok := rt.AttributeExpr.Meta.Last(ViewMetaKey)
+	if !ok {
+		return verr
+	}
+	elem := rt
+	if arr := AsArray(rt.Type); arr != nil {
+		elem, _ = arr.ElemType.Type.(*ResultTypeExpr)
+	}
+	if elem == nil {
+		verr.Add(rt, "result type %q uses view %q but its elements are not result types", rt.TypeName, view)
+		return verr
+	}
+	if elem.View(view) == nil {
+		if elem == rt {
+			verr.Add(rt, "result type %q uses view %q which it does not define", rt.TypeName, view)
+		} else {
+			verr.Add(rt, "result type %q uses view %q which its element result type %q does not define", rt.TypeName, view, elem.TypeName)
+		}
+	}
+	return verr
+}
+
 // useExplicitView projects the result type using the view explicitly set on the
 // attribute if any.
 func (rt *ResultTypeExpr) useExplicitView() {
